@@ -568,7 +568,7 @@ PARSE_ENTRY = "broadcast use winnow_defs, grammar_defs;\n        proof { match g
 
 # ====================================================================================================================================
 # Display under contract (A16: the `write!` model of contracts/fmt_spec.rs)
-DISPLAY_CONTRACT = "        ensures r is Ok ==> fmt_out(*final(f)) == fmt_out(*old(f)) + self.disp(),  // @display#text"
+DISPLAY_CONTRACT = "        ensures r is Ok ==> fmt_out(*final(f)) == fmt_out(*old(f)) + self.disp(),  // @display#text\n            r is Err ==> fmt_failed(*final(f)),  // @display#err-only-from-the-writer"
 IDENT_FMT_HINT = 'proof { reveal_strlit(""); assert(""@ =~= Seq::<char>::empty()); }'
 DIFF_HINT = 'proof { reveal_strlit("major"); reveal_strlit("minor"); reveal_strlit("patch"); reveal_strlit("premajor"); reveal_strlit("preminor"); reveal_strlit("prepatch"); reveal_strlit("prerelease"); }'
 VERSION_FMT_HINT = 'broadcast use ax_vec_len_fits;\n        let ghost out0 = fmt_out(*f);\n        let ghost core = dec_text(self.major as nat) + ch1(\'.\') + dec_text(self.minor as nat) + ch1(\'.\') + dec_text(self.patch as nat);\n        proof { reveal_strlit("."); reveal_strlit("-"); reveal_strlit("+"); reveal_strlit(""); assert("."@ =~= ch1(\'.\')); assert("-"@ =~= ch1(\'-\')); assert("+"@ =~= ch1(\'+\')); assert(""@ =~= Seq::<char>::empty()); }'
